@@ -13,6 +13,40 @@ case "$PROP" in C02|C03|C04|C17|C18) ;; *)
   shift 2
   env "$@" VERIF_SAFE_KINDS=1 timeout 3600 "$bin" "$PROP" "${VERIF_MODE:-quick}"; rc=$?
   if [ $rc -le 1 ]; then exit $rc; fi
+  # Died again. The statements of these properties say what particular calls return; a call that
+  # kills the process returns nothing. Re-run every journaled case alone, with the operation in
+  # flight named on stderr: a case that kills a fresh process *inside an operation the property
+  # is about* is a violation of that property (the case file is the replay); a death anywhere
+  # else leaves the property undecided.
+  case "$PROP" in
+    C01) OWN="insert insert_key_value checked_insert get get_mut get_key_value contains_key index index_mut remove remove_entry retain clear drain" ;;
+    C07) OWN="insert replace contains get remove take retain clear drain extend" ;;
+    C09) OWN="walk" ;;
+    C10) OWN="consume drain" ;;
+    C11) OWN="entry" ;;
+    C13) OWN="get_disjoint_mut disjoint_sweep" ;;
+    C14) OWN="eq" ;;
+    C15) OWN="clone" ;;
+    C16) OWN="from_iter extend" ;;
+    C19) OWN="fmt" ;;
+    *) OWN="" ;;
+  esac
+  if [ -n "$OWN" ]; then
+    for f in "$VERIF_DIR/work/journal-$PROP"/*.case; do
+      [ -f "$f" ] || continue
+      VERIF_MARK=1 timeout 120 "$bin" "$PROP" --replay "$f" >/dev/null 2>"$VERIF_DIR/work/marks-$PROP.txt"; r2=$?
+      if [ $r2 -gt 2 ] && [ $r2 -ne 124 ]; then
+        op=$(grep '^op-in-flight: ' "$VERIF_DIR/work/marks-$PROP.txt" | tail -n 1 | awk '{print $3}')
+        for o in $OWN; do
+          if [ "$o" = "$op" ]; then
+            mkdir -p "$VERIF_DIR/replays"; dst="$VERIF_DIR/replays/$PROP-crash-$(basename "$f")"; cp "$f" "$dst"
+            echo "violated: executing this case kills the process (status $r2) inside the operation '$op' (step $(grep '^op-in-flight: ' "$VERIF_DIR/work/marks-$PROP.txt" | tail -n 1 | awk '{print $2}')): the call returns nothing, whatever $PROP says it returns"
+            echo "VIOLATION property=$PROP replay=$dst"; exit 1
+          fi
+        done
+      fi
+    done
+  fi
   echo "INCONCLUSIVE: the runner was killed (memory corruption or abort inside the library) before property $PROP could be decided"; exit 2 ;;
 esac
 J="$VERIF_DIR/work/journal-$PROP"
